@@ -1,7 +1,710 @@
 /-
-C19 — lemmas for the N-thread interleaving semantics (EPV.Globals.Thr).
+C19 — lemmas for the N-thread interleaving semantics (EPV.Globals.Thr): the inductive
+invariant over the step relation.
 -/
-import EPV.Model.Globals
+import EPV.Lemmas.Globals
 namespace EPV.Globals.Thr
+
+/-- per-thread part of the invariant, relative to the initial locale `L`: what a thread at this
+program point knows about the shared state.  Points outside the critical section know nothing. -/
+def TInv (L : Loc) (s : Shared) (t : Thread) : Prop :=
+  match t.pc with
+  | .idle => True
+  | .acquire _ _ => True
+  | .query _ _ => s.lc = L
+  | .setReq _ _ saved => saved = L ∧ s.lc = L
+  | .setFb saved => saved = L ∧ s.lc = L
+  | .failRelease => s.lc = L
+  | .body none none _ => True
+  | .body none (some _) _ => False
+  | .body (some _) none _ => False
+  | .body (some saved) (some tg) _ => saved = L ∧ s.lc = tg
+  | .restore saved => saved = L
+  | .release => s.lc = L
+
+/-- every recorded `strcoll` saw the locale its own scope installed -/
+def SeenOK (t : Thread) : Prop := ∀ p ∈ t.seen, p.2 = p.1
+
+/-- how one step of a thread can affect the lock -/
+inductive Effect (s s' : Shared) (t t' : Thread) : Prop where
+  | outside : t.pc.holds = false → t'.pc.holds = false → s' = s → Effect s s' t t'
+  | acquire : t.pc.holds = false → t'.pc.holds = true → s.lock = false →
+      s'.lock = true → s'.lc = s.lc → Effect s s' t t'
+  | inside : t.pc.holds = true → t'.pc.holds = true → s'.lock = s.lock → Effect s s' t t'
+  | release : t.pc.holds = true → t'.pc.holds = false → s'.lock = false → s'.lc = s.lc →
+      Effect s s' t t'
+
+set_option linter.unnecessarySimpa false in
+/-- local preservation: one step of one thread -/
+theorem step_local (w : World) (L : Loc) (hL : w.avail L = true) (s s' : Shared) (t t' : Thread)
+    (h : step w s t = some (s', t')) (hT : TInv L s t) (hS : SeenOK t)
+    (hlk : t.pc.holds = true → s.lock = true) (hfree : s.lock = false → s.lc = L) :
+    TInv L s' t' ∧ SeenOK t' ∧ (s'.lock = false → s'.lc = L) ∧ Effect s s' t t' := by
+  unfold step at h
+  cases hpc : t.pc with
+  | idle =>
+    simp only [hpc] at h
+    cases htd : t.todo with
+    | nil => simp [htd] at h
+    | cons j js =>
+      simp only [htd] at h
+      cases hj : j.mgr.lc with
+      | none =>
+        simp only [hj, Option.some.injEq, Prod.mk.injEq] at h
+        obtain ⟨rfl, rfl⟩ := h
+        exact ⟨by simp [TInv], hS, hfree, .outside (by simp [hpc, Pc.holds]) (by simp [Pc.holds]) rfl⟩
+      | some req =>
+        simp only [hj, Option.some.injEq, Prod.mk.injEq] at h
+        obtain ⟨rfl, rfl⟩ := h
+        exact ⟨by simp [TInv], hS, hfree, .outside (by simp [hpc, Pc.holds]) (by simp [Pc.holds]) rfl⟩
+  | acquire req fb =>
+    simp only [hpc] at h
+    cases hl : s.lock with
+    | true => simp [hl] at h
+    | false =>
+      simp only [hl, Bool.false_eq_true, ↓reduceIte, Option.some.injEq, Prod.mk.injEq] at h
+      obtain ⟨rfl, rfl⟩ := h
+      exact ⟨by simp [TInv, hfree hl], hS, by simp,
+        .acquire (by simp [hpc, Pc.holds]) (by simp [Pc.holds]) hl rfl rfl⟩
+  | query req fb =>
+    simp only [hpc, Option.some.injEq, Prod.mk.injEq] at h
+    obtain ⟨rfl, rfl⟩ := h
+    have : s.lc = L := by simpa [TInv, hpc] using hT
+    exact ⟨by simp [TInv, this], hS, hfree,
+      .inside (by simp [hpc, Pc.holds]) (by simp [Pc.holds]) rfl⟩
+  | setReq req fb saved =>
+    simp only [hpc] at h
+    have hT' : saved = L ∧ s.lc = L := by simpa [TInv, hpc] using hT
+    have hlock : s.lock = true := hlk (by simp [hpc, Pc.holds])
+    by_cases ha : w.avail (w.norm req) = true
+    · simp only [ha, ↓reduceIte, Option.some.injEq, Prod.mk.injEq] at h
+      obtain ⟨rfl, rfl⟩ := h
+      exact ⟨by simp [TInv, hT'.1], hS, by simp [hlock],
+        .inside (by simp [hpc, Pc.holds]) (by simp [Pc.holds]) rfl⟩
+    · simp only [ha, Bool.false_eq_true, ↓reduceIte] at h
+      cases fb with
+      | true =>
+        simp only [↓reduceIte, Option.some.injEq, Prod.mk.injEq] at h
+        obtain ⟨rfl, rfl⟩ := h
+        exact ⟨by simp [TInv, hT'], hS, hfree,
+          .inside (by simp [hpc, Pc.holds]) (by simp [Pc.holds]) rfl⟩
+      | false =>
+        simp only [Bool.false_eq_true, ↓reduceIte, Option.some.injEq, Prod.mk.injEq] at h
+        obtain ⟨rfl, rfl⟩ := h
+        exact ⟨by simp [TInv, hT'], hS, hfree,
+          .inside (by simp [hpc, Pc.holds]) (by simp [Pc.holds]) rfl⟩
+  | setFb saved =>
+    simp only [hpc] at h
+    have hT' : saved = L ∧ s.lc = L := by simpa [TInv, hpc] using hT
+    have hlock : s.lock = true := hlk (by simp [hpc, Pc.holds])
+    by_cases ha : w.avail enUS = true
+    · simp only [ha, ↓reduceIte, Option.some.injEq, Prod.mk.injEq] at h
+      obtain ⟨rfl, rfl⟩ := h
+      exact ⟨by simp [TInv, hT'.1], hS, by simp [hlock],
+        .inside (by simp [hpc, Pc.holds]) (by simp [Pc.holds]) rfl⟩
+    · simp only [ha, Bool.false_eq_true, ↓reduceIte, Option.some.injEq, Prod.mk.injEq] at h
+      obtain ⟨rfl, rfl⟩ := h
+      exact ⟨by simp [TInv, hT'], hS, hfree,
+        .inside (by simp [hpc, Pc.holds]) (by simp [Pc.holds]) rfl⟩
+  | failRelease =>
+    simp only [hpc, Option.some.injEq, Prod.mk.injEq] at h
+    obtain ⟨rfl, rfl⟩ := h
+    have : s.lc = L := by simpa [TInv, hpc] using hT
+    exact ⟨by simp [TInv], hS, fun _ => this,
+      .release (by simp [hpc, Pc.holds]) (by simp [Pc.holds]) rfl rfl⟩
+  | body saved target n =>
+    simp only [hpc] at h
+    cases n with
+    | succ n =>
+      simp only [Option.some.injEq, Prod.mk.injEq] at h
+      obtain ⟨rfl, rfl⟩ := h
+      refine ⟨?_, ?_, hfree, ?_⟩
+      · cases saved <;> cases target <;> simpa [TInv, hpc] using hT
+      · cases target with
+        | none => exact hS
+        | some tg =>
+          intro p hp
+          simp only [List.mem_append, List.mem_singleton] at hp
+          rcases hp with hp | rfl
+          · exact hS p hp
+          · cases saved with
+            | none => simp [TInv, hpc] at hT
+            | some sv =>
+              have : sv = L ∧ s.lc = tg := by simpa [TInv, hpc] using hT
+              exact this.2
+      · cases saved with
+        | none => exact .outside (by simp [hpc, Pc.holds]) (by simp [Pc.holds]) rfl
+        | some sv => exact .inside (by simp [hpc, Pc.holds]) (by simp [Pc.holds]) rfl
+    | zero =>
+      cases saved with
+      | none =>
+        simp only [Option.some.injEq, Prod.mk.injEq] at h
+        obtain ⟨rfl, rfl⟩ := h
+        exact ⟨by simp [TInv], hS, hfree,
+          .outside (by simp [hpc, Pc.holds]) (by simp [Pc.holds]) rfl⟩
+      | some sv =>
+        simp only [Option.some.injEq, Prod.mk.injEq] at h
+        obtain ⟨rfl, rfl⟩ := h
+        cases target with
+        | none => simp [TInv, hpc] at hT
+        | some tg =>
+          have : sv = L ∧ s.lc = tg := by simpa [TInv, hpc] using hT
+          exact ⟨by simp [TInv, this.1], hS, hfree,
+            .inside (by simp [hpc, Pc.holds]) (by simp [Pc.holds]) rfl⟩
+  | restore sv =>
+    simp only [hpc] at h
+    have hsv : sv = L := by simpa [TInv, hpc] using hT
+    have hlock : s.lock = true := hlk (by simp [hpc, Pc.holds])
+    subst hsv
+    simp only [hL, ↓reduceIte, Option.some.injEq, Prod.mk.injEq] at h
+    obtain ⟨rfl, rfl⟩ := h
+    exact ⟨by simp [TInv], hS, by simp [hlock],
+      .inside (by simp [hpc, Pc.holds]) (by simp [Pc.holds]) rfl⟩
+  | release =>
+    simp only [hpc, Option.some.injEq, Prod.mk.injEq] at h
+    obtain ⟨rfl, rfl⟩ := h
+    have : s.lc = L := by simpa [TInv, hpc] using hT
+    exact ⟨by simp [TInv], hS, fun _ => this,
+      .release (by simp [hpc, Pc.holds]) (by simp [Pc.holds]) rfl rfl⟩
+
+/-- a thread outside the critical section keeps its (empty) knowledge whatever happens to the
+shared state -/
+theorem TInv_outside (L : Loc) (s s' : Shared) (u : Thread) (hu : u.pc.holds = false)
+    (h : TInv L s u) : TInv L s' u := by
+  unfold TInv at *
+  cases hpc : u.pc with
+  | body saved target n =>
+    cases saved <;> cases target <;> simp_all [Pc.holds]
+  | _ => simp_all [Pc.holds]
+
+/-- the per-thread knowledge only concerns `lc` -/
+theorem TInv_lc (L : Loc) (s s' : Shared) (u : Thread) (hlc : s'.lc = s.lc)
+    (h : TInv L s u) : TInv L s' u := by
+  unfold TInv at *
+  rw [hlc]; exact h
+
+/-! ### the global invariant -/
+
+/-- number of threads inside the critical section -/
+def holders (ts : List Thread) : Nat := ts.countP (·.pc.holds)
+
+/-- The inductive invariant: the lock bit counts the holders (so at most one), a free lock means
+the initial locale is in place, every thread's local knowledge is right, every observation made
+by a body was of its own locale. -/
+structure Inv (L : Loc) (c : Config) : Prop where
+  count : holders c.ts = if c.sh.lock then 1 else 0
+  free : c.sh.lock = false → c.sh.lc = L
+  local_ : ∀ t ∈ c.ts, TInv L c.sh t
+  seen : ∀ t ∈ c.ts, SeenOK t
+
+theorem holders_split (pre post : List Thread) (t : Thread) :
+    holders (pre ++ t :: post) = holders pre + (if t.pc.holds then 1 else 0) + holders post := by
+  simp [holders, List.countP_append, List.countP_cons]; omega
+
+theorem holders_zero {ts : List Thread} (h : holders ts = 0) : ∀ u ∈ ts, u.pc.holds = false := by
+  intro u hu
+  have := List.countP_eq_zero.mp h u hu
+  simpa using this
+
+theorem inv_step (w : World) (L : Loc) (hL : w.avail L = true) (c c' : Config)
+    (hi : Inv L c) (hs : Step w c c') : Inv L c' := by
+  cases hs with
+  | mk s s' pre post t t' h =>
+    have hmem : t ∈ pre ++ t :: post := by simp
+    have hcount := hi.count
+    simp only [holders_split] at hcount
+    have hlk : t.pc.holds = true → s.lock = true := by
+      intro ht
+      cases hl : s.lock with
+      | true => rfl
+      | false => simp [ht, hl] at hcount
+    obtain ⟨hT', hS', hfree', eff⟩ :=
+      step_local w L hL s s' t t' h (hi.local_ t hmem) (hi.seen t hmem) hlk hi.free
+    have others : ∀ u, u ∈ pre ∨ u ∈ post → u ∈ pre ++ t :: post := by
+      intro u hu; rcases hu with hu | hu <;> simp [hu]
+    refine ⟨?_, hfree', ?_, ?_⟩
+    · -- counting
+      simp only [holders_split]
+      cases eff with
+      | outside h1 h2 h3 => subst h3; simp only [h1, h2] at hcount ⊢; exact hcount
+      | acquire h1 h2 h3 h4 h5 =>
+        simp only [h1, h3] at hcount
+        simp only [h2, h4]; simp at hcount ⊢; omega
+      | inside h1 h2 h3 => simp only [h1, h2, h3] at hcount ⊢; exact hcount
+      | release h1 h2 h3 h4 =>
+        have hl := hlk h1
+        simp only [h1, hl] at hcount
+        simp only [h2, h3]; simp at hcount ⊢; omega
+    · -- local knowledge
+      intro u hu
+      simp only [List.mem_append, List.mem_cons] at hu
+      have keep : (u ∈ pre ∨ u ∈ post) → TInv L s' u := by
+        intro hu'
+        have hTu := hi.local_ u (others u hu')
+        cases eff with
+        | outside h1 h2 h3 => subst h3; exact hTu
+        | acquire h1 h2 h3 h4 h5 => exact TInv_lc L s s' u h5 hTu
+        | inside h1 h2 h3 =>
+          -- t holds, the lock is taken, so nobody else is inside
+          have hl := hlk h1
+          simp only [h1, hl] at hcount
+          have hz : holders pre = 0 ∧ holders post = 0 := by simp at hcount; omega
+          have : u.pc.holds = false := by
+            rcases hu' with hu' | hu'
+            · exact holders_zero hz.1 u hu'
+            · exact holders_zero hz.2 u hu'
+          exact TInv_outside L s s' u this hTu
+        | release h1 h2 h3 h4 => exact TInv_lc L s s' u h4 hTu
+      rcases hu with hu | rfl | hu
+      · exact keep (Or.inl hu)
+      · exact hT'
+      · exact keep (Or.inr hu)
+    · intro u hu
+      simp only [List.mem_append, List.mem_cons] at hu
+      rcases hu with hu | rfl | hu
+      · exact hi.seen u (others u (Or.inl hu))
+      · exact hS'
+      · exact hi.seen u (others u (Or.inr hu))
+
+theorem inv_reach (w : World) (L : Loc) (hL : w.avail L = true) (c c' : Config)
+    (hi : Inv L c) (hr : Reach w c c') : Inv L c' := by
+  induction hr with
+  | refl => exact hi
+  | tail _ hs ih => exact inv_step w L hL _ _ ih hs
+
+/-- the initial configuration: lock free, locale `L`, every thread at the start of its program -/
+def Config.start (L : Loc) (progs : List (List Job)) : Config :=
+  ⟨⟨false, L⟩, progs.map Thread.init⟩
+
+theorem inv_start (L : Loc) (progs : List (List Job)) : Inv L (Config.start L progs) := by
+  refine ⟨?_, fun _ => rfl, ?_, ?_⟩
+  · simp only [Config.start, holders, Bool.false_eq_true, ↓reduceIte]
+    apply List.countP_eq_zero.mpr
+    intro t ht
+    simp only [List.mem_map] at ht
+    obtain ⟨p, _, rfl⟩ := ht
+    simp [Thread.init, Pc.holds]
+  · intro t ht
+    simp only [Config.start, List.mem_map] at ht
+    obtain ⟨p, _, rfl⟩ := ht
+    simp [Thread.init, TInv]
+  · intro t ht
+    simp only [Config.start, List.mem_map] at ht
+    obtain ⟨p, _, rfl⟩ := ht
+    intro q hq
+    simp [Thread.init] at hq
+
+/-! ### progress -/
+
+/-- a thread inside the critical section can always move -/
+theorem holder_enabled (w : World) (s : Shared) (t : Thread) (h : t.pc.holds = true) :
+    ∃ r, step w s t = some r := by
+  unfold step
+  cases hpc : t.pc with
+  | idle => simp [hpc, Pc.holds] at h
+  | acquire _ _ => simp [hpc, Pc.holds] at h
+  | query _ _ => exact ⟨_, rfl⟩
+  | setReq req fb saved =>
+    simp only
+    by_cases ha : w.avail (w.norm req) = true
+    · simp [ha]
+    · cases fb <;> simp [ha]
+  | setFb saved => simp only; by_cases ha : w.avail enUS = true <;> simp [ha]
+  | failRelease => exact ⟨_, rfl⟩
+  | body saved target n => cases n <;> cases saved <;> simp
+  | restore sv => simp only; by_cases ha : w.avail sv = true <;> simp [ha]
+  | release => exact ⟨_, rfl⟩
+
+/-- with the lock free, every unfinished thread can move -/
+theorem free_enabled (w : World) (s : Shared) (t : Thread) (hl : s.lock = false)
+    (hd : t.done = false) : ∃ r, step w s t = some r := by
+  unfold step
+  cases hpc : t.pc with
+  | idle =>
+    cases htd : t.todo with
+    | nil => simp [Thread.done, hpc, htd] at hd
+    | cons j js => simp only; cases j.mgr.lc <;> simp
+  | acquire _ _ => simp [hl]
+  | query _ _ => exact ⟨_, rfl⟩
+  | setReq req fb saved =>
+    simp only
+    by_cases ha : w.avail (w.norm req) = true
+    · simp [ha]
+    · cases fb <;> simp [ha]
+  | setFb saved => simp only; by_cases ha : w.avail enUS = true <;> simp [ha]
+  | failRelease => exact ⟨_, rfl⟩
+  | body saved target n => cases n <;> cases saved <;> simp
+  | restore sv => simp only; by_cases ha : w.avail sv = true <;> simp [ha]
+  | release => exact ⟨_, rfl⟩
+
+/-! ### at most one holder, index form -/
+
+theorem countP_le_one_index {α : Type} (p : α → Bool) :
+    ∀ (l : List α), l.countP p ≤ 1 → ∀ (i j : Nat) (hi : i < l.length) (hj : j < l.length),
+      p l[i] = true → p l[j] = true → i = j
+  | [], _, i, _, hi, _, _, _ => by simp at hi
+  | x :: xs, h, i, j, hi, hj, pi, pj => by
+    rw [List.countP_cons] at h
+    cases i with
+    | zero =>
+      cases j with
+      | zero => rfl
+      | succ j =>
+        simp only [List.getElem_cons_zero] at pi
+        simp only [List.getElem_cons_succ] at pj
+        simp only [pi, ↓reduceIte] at h
+        have hz : xs.countP p = 0 := by omega
+        have hj' : j < xs.length := by simpa using hj
+        have := List.countP_eq_zero.mp hz xs[j] (List.getElem_mem hj')
+        simp [pj] at this
+    | succ i =>
+      cases j with
+      | zero =>
+        simp only [List.getElem_cons_zero] at pj
+        simp only [List.getElem_cons_succ] at pi
+        simp only [pj, ↓reduceIte] at h
+        have hz : xs.countP p = 0 := by omega
+        have hi' : i < xs.length := by simpa using hi
+        have := List.countP_eq_zero.mp hz xs[i] (List.getElem_mem hi')
+        simp [pi] at this
+      | succ j =>
+        simp only [List.getElem_cons_succ] at pi pj
+        have h' : xs.countP p ≤ 1 := by omega
+        have := countP_le_one_index p xs h' i j (by simpa using hi) (by simpa using hj) pi pj
+        omega
+
+/-! ### termination: every step consumes work -/
+
+/-- work left at a program point of a job with `uses` body steps -/
+def Pc.weight (uses : Nat) : Pc → Nat
+  | .idle => 0
+  | .acquire _ _ => uses + 9
+  | .query _ _ => uses + 8
+  | .setReq _ _ _ => uses + 7
+  | .setFb _ => uses + 6
+  | .failRelease => 1
+  | .body _ _ n => n + 4
+  | .restore _ => 3
+  | .release => 2
+
+def Thread.weight (t : Thread) : Nat :=
+  t.pc.weight t.cur.uses + (t.todo.map fun j => j.uses + 10).sum
+
+/-- total work left in a configuration -/
+def Config.weight (c : Config) : Nat := (c.ts.map Thread.weight).sum
+
+theorem step_weight (w : World) (s s' : Shared) (t t' : Thread)
+    (h : step w s t = some (s', t')) : t'.weight < t.weight := by
+  unfold step at h
+  cases hpc : t.pc with
+  | idle =>
+    simp only [hpc] at h
+    cases htd : t.todo with
+    | nil => simp [htd] at h
+    | cons j js =>
+      simp only [htd] at h
+      cases hj : j.mgr.lc with
+      | none =>
+        simp only [hj, Option.some.injEq, Prod.mk.injEq] at h
+        obtain ⟨rfl, rfl⟩ := h
+        simp [Thread.weight, Pc.weight, hpc, htd]
+      | some req =>
+        simp only [hj, Option.some.injEq, Prod.mk.injEq] at h
+        obtain ⟨rfl, rfl⟩ := h
+        simp [Thread.weight, Pc.weight, hpc, htd]
+  | acquire req fb =>
+    simp only [hpc] at h
+    cases hl : s.lock <;> simp [hl] at h
+    obtain ⟨rfl, rfl⟩ := h
+    simp [Thread.weight, Pc.weight, hpc]
+  | query req fb =>
+    simp only [hpc, Option.some.injEq, Prod.mk.injEq] at h
+    obtain ⟨rfl, rfl⟩ := h
+    simp [Thread.weight, Pc.weight, hpc]
+  | setReq req fb saved =>
+    simp only [hpc] at h
+    by_cases ha : w.avail (w.norm req) = true
+    · simp only [ha, ↓reduceIte, Option.some.injEq, Prod.mk.injEq] at h
+      obtain ⟨rfl, rfl⟩ := h
+      simp [Thread.weight, Pc.weight, hpc]
+    · cases fb <;> simp [ha] at h <;> obtain ⟨rfl, rfl⟩ := h <;>
+        simp [Thread.weight, Pc.weight, hpc] <;> omega
+  | setFb saved =>
+    simp only [hpc] at h
+    by_cases ha : w.avail enUS = true
+    · simp only [ha, ↓reduceIte, Option.some.injEq, Prod.mk.injEq] at h
+      obtain ⟨rfl, rfl⟩ := h
+      simp [Thread.weight, Pc.weight, hpc]
+    · simp [ha] at h
+      obtain ⟨rfl, rfl⟩ := h
+      simp [Thread.weight, Pc.weight, hpc]
+  | failRelease =>
+    simp only [hpc, Option.some.injEq, Prod.mk.injEq] at h
+    obtain ⟨rfl, rfl⟩ := h
+    simp [Thread.weight, Pc.weight, hpc]
+  | body saved target n =>
+    simp only [hpc] at h
+    cases n with
+    | succ n =>
+      simp only [Option.some.injEq, Prod.mk.injEq] at h
+      obtain ⟨rfl, rfl⟩ := h
+      simp [Thread.weight, Pc.weight, hpc]
+    | zero =>
+      cases saved <;> simp at h <;> obtain ⟨rfl, rfl⟩ := h <;>
+        simp [Thread.weight, Pc.weight, hpc]
+  | restore sv =>
+    simp only [hpc] at h
+    by_cases ha : w.avail sv = true <;> simp [ha] at h <;> obtain ⟨rfl, rfl⟩ := h <;>
+      simp [Thread.weight, Pc.weight, hpc]
+  | release =>
+    simp only [hpc, Option.some.injEq, Prod.mk.injEq] at h
+    obtain ⟨rfl, rfl⟩ := h
+    simp [Thread.weight, Pc.weight, hpc]
+
+theorem Step.weight_lt {w : World} {c c' : Config} (hs : Step w c c') : c'.weight < c.weight := by
+  cases hs with
+  | mk s s' pre post t t' h =>
+    have := step_weight w s s' t t' h
+    simp only [Config.weight, List.map_append, List.map_cons, List.sum_append, List.sum_cons]
+    omega
+
+/-- `ReachN w c c' n`: `c'` is reached from `c` by exactly `n` steps -/
+inductive ReachN (w : World) : Config → Config → Nat → Prop where
+  | refl (c : Config) : ReachN w c c 0
+  | tail {a b c : Config} {n : Nat} : ReachN w a b n → Step w b c → ReachN w a c (n + 1)
+
+theorem ReachN.toReach {w : World} {c c' : Config} {n : Nat} (h : ReachN w c c' n) :
+    Reach w c c' := by
+  induction h with
+  | refl => exact .refl _
+  | tail _ hs ih => exact .tail ih hs
+
+theorem ReachN.weight {w : World} {c c' : Config} {n : Nat} (h : ReachN w c c' n) :
+    n + c'.weight ≤ c.weight := by
+  induction h with
+  | refl => omega
+  | tail _ hs ih => have := hs.weight_lt; omega
+
+/-! ### outcomes do not depend on the schedule -/
+
+/-- is the outcome of the current job still to be delivered? -/
+def owesCur (t : Thread) : Bool :=
+  match t.pc with
+  | .idle => false
+  | .restore _ => false
+  | .release => false
+  | _ => true
+
+/-- the outcomes the thread has not delivered yet -/
+def pending (w : World) (t : Thread) : List Out :=
+  (if owesCur t then [t.cur.expected w] else []) ++ t.todo.map (Job.expected w)
+
+/-- what the program point records about the job being run -/
+def Link (w : World) (t : Thread) : Prop :=
+  match t.pc with
+  | .acquire req fb => t.cur.mgr.lc = some req ∧ t.cur.mgr.fallback = fb
+  | .query req fb => t.cur.mgr.lc = some req ∧ t.cur.mgr.fallback = fb
+  | .setReq req fb _ => t.cur.mgr.lc = some req ∧ t.cur.mgr.fallback = fb
+  | .setFb _ => ∃ req, t.cur.mgr.lc = some req ∧ t.cur.mgr.fallback = true ∧
+      w.avail (w.norm req) = false
+  | .failRelease => t.cur.expected w = .err .FOCH0002
+  | .body _ _ _ => t.cur.expected w = t.cur.bodyOut
+  | _ => True
+
+/-- delivered ++ owed = the outcomes of the whole program, each computed from the job and the
+installed locales alone -/
+def OutInv (w : World) (t : Thread) : Prop :=
+  Link w t ∧ t.outs ++ pending w t = t.prog.map (Job.expected w)
+
+theorem step_out (w : World) (s s' : Shared) (t t' : Thread)
+    (h : step w s t = some (s', t')) (hO : OutInv w t)
+    (hr : ∀ sv, t.pc = .restore sv → w.avail sv = true) :
+    OutInv w t' ∧ t'.prog = t.prog := by
+  obtain ⟨hlink, hout⟩ := hO
+  unfold step at h
+  cases hpc : t.pc with
+  | idle =>
+    simp only [hpc] at h
+    cases htd : t.todo with
+    | nil => simp [htd] at h
+    | cons j js =>
+      simp only [htd] at h
+      cases hj : j.mgr.lc with
+      | none =>
+        simp only [hj, Option.some.injEq, Prod.mk.injEq] at h
+        obtain ⟨rfl, rfl⟩ := h
+        refine ⟨⟨?_, ?_⟩, rfl⟩
+        · simp [Link, Job.expected, hj]
+        · simpa [pending, owesCur, hpc, htd] using hout
+      | some req =>
+        simp only [hj, Option.some.injEq, Prod.mk.injEq] at h
+        obtain ⟨rfl, rfl⟩ := h
+        refine ⟨⟨?_, ?_⟩, rfl⟩
+        · simp [Link, hj]
+        · simpa [pending, owesCur, hpc, htd] using hout
+  | acquire req fb =>
+    simp only [hpc] at h
+    cases hl : s.lock <;> simp [hl] at h
+    obtain ⟨rfl, rfl⟩ := h
+    refine ⟨⟨?_, ?_⟩, rfl⟩
+    · simpa [Link, hpc] using hlink
+    · simpa [pending, owesCur, hpc] using hout
+  | query req fb =>
+    simp only [hpc, Option.some.injEq, Prod.mk.injEq] at h
+    obtain ⟨rfl, rfl⟩ := h
+    refine ⟨⟨?_, ?_⟩, rfl⟩
+    · simpa [Link, hpc] using hlink
+    · simpa [pending, owesCur, hpc] using hout
+  | setReq req fb saved =>
+    simp only [hpc] at h
+    have hl : t.cur.mgr.lc = some req ∧ t.cur.mgr.fallback = fb := by simpa [Link, hpc] using hlink
+    by_cases ha : w.avail (w.norm req) = true
+    · simp only [ha, ↓reduceIte, Option.some.injEq, Prod.mk.injEq] at h
+      obtain ⟨rfl, rfl⟩ := h
+      refine ⟨⟨?_, ?_⟩, rfl⟩
+      · simp [Link, Job.expected, hl.1, ha]
+      · simpa [pending, owesCur, hpc] using hout
+    · cases fb with
+      | true =>
+        simp [ha] at h
+        obtain ⟨rfl, rfl⟩ := h
+        refine ⟨⟨?_, ?_⟩, rfl⟩
+        · exact ⟨req, hl.1, hl.2, by simpa using ha⟩
+        · simpa [pending, owesCur, hpc] using hout
+      | false =>
+        simp [ha] at h
+        obtain ⟨rfl, rfl⟩ := h
+        refine ⟨⟨?_, ?_⟩, rfl⟩
+        · simp [Link, Job.expected, hl.1, hl.2, ha]
+        · simpa [pending, owesCur, hpc] using hout
+  | setFb saved =>
+    simp only [hpc] at h
+    obtain ⟨req, h1, h2, h3⟩ : ∃ req, t.cur.mgr.lc = some req ∧ t.cur.mgr.fallback = true ∧
+      w.avail (w.norm req) = false := by simpa [Link, hpc] using hlink
+    by_cases ha : w.avail enUS = true
+    · simp only [ha, ↓reduceIte, Option.some.injEq, Prod.mk.injEq] at h
+      obtain ⟨rfl, rfl⟩ := h
+      refine ⟨⟨?_, ?_⟩, rfl⟩
+      · simp [Link, Job.expected, h1, h2, h3, ha]
+      · simpa [pending, owesCur, hpc] using hout
+    · simp [ha] at h
+      obtain ⟨rfl, rfl⟩ := h
+      refine ⟨⟨?_, ?_⟩, rfl⟩
+      · simp [Link, Job.expected, h1, h2, h3, ha]
+      · simpa [pending, owesCur, hpc] using hout
+  | failRelease =>
+    simp only [hpc, Option.some.injEq, Prod.mk.injEq] at h
+    obtain ⟨rfl, rfl⟩ := h
+    have hl : t.cur.expected w = .err .FOCH0002 := by simpa [Link, hpc] using hlink
+    refine ⟨⟨by simp [Link], ?_⟩, rfl⟩
+    simpa [pending, owesCur, hpc, hl] using hout
+  | body saved target n =>
+    simp only [hpc] at h
+    have hl : t.cur.expected w = t.cur.bodyOut := by simpa [Link, hpc] using hlink
+    cases n with
+    | succ n =>
+      simp only [Option.some.injEq, Prod.mk.injEq] at h
+      obtain ⟨rfl, rfl⟩ := h
+      refine ⟨⟨by simpa [Link] using hl, ?_⟩, rfl⟩
+      simpa [pending, owesCur, hpc] using hout
+    | zero =>
+      cases saved with
+      | none =>
+        simp at h
+        obtain ⟨rfl, rfl⟩ := h
+        refine ⟨⟨by simp [Link], ?_⟩, rfl⟩
+        simpa [pending, owesCur, hpc, hl] using hout
+      | some sv =>
+        simp at h
+        obtain ⟨rfl, rfl⟩ := h
+        refine ⟨⟨by simp [Link], ?_⟩, rfl⟩
+        simpa [pending, owesCur, hpc, hl] using hout
+  | restore sv =>
+    simp only [hpc] at h
+    have ha := hr sv hpc
+    simp [ha] at h
+    obtain ⟨rfl, rfl⟩ := h
+    refine ⟨⟨by simp [Link], ?_⟩, rfl⟩
+    simpa [pending, owesCur, hpc] using hout
+  | release =>
+    simp only [hpc, Option.some.injEq, Prod.mk.injEq] at h
+    obtain ⟨rfl, rfl⟩ := h
+    refine ⟨⟨by simp [Link], ?_⟩, rfl⟩
+    simpa [pending, owesCur, hpc] using hout
+
+/-- threads keep their programs, in place -/
+def Progs (c : Config) : List (List Job) := c.ts.map (·.prog)
+
+theorem out_step (w : World) (L : Loc) (hL : w.avail L = true) (c c' : Config)
+    (hi : Inv L c) (ho : ∀ t ∈ c.ts, OutInv w t) (hs : Step w c c') :
+    (∀ t ∈ c'.ts, OutInv w t) ∧ Progs c' = Progs c := by
+  cases hs with
+  | mk s s' pre post t t' h =>
+    have hmem : t ∈ pre ++ t :: post := by simp
+    have hr : ∀ sv, t.pc = .restore sv → w.avail sv = true := by
+      intro sv hpc
+      have := hi.local_ t hmem
+      simp only [TInv, hpc] at this
+      rw [this]; exact hL
+    obtain ⟨h1, h2⟩ := step_out w s s' t t' h (ho t hmem) hr
+    refine ⟨?_, by simp [Progs, h2]⟩
+    intro u hu
+    simp only [List.mem_append, List.mem_cons] at hu
+    rcases hu with hu | rfl | hu
+    · exact ho u (by simp [hu])
+    · exact h1
+    · exact ho u (by simp [hu])
+
+theorem out_reach (w : World) (L : Loc) (hL : w.avail L = true) (c c' : Config)
+    (hi : Inv L c) (ho : ∀ t ∈ c.ts, OutInv w t) (hr : Reach w c c') :
+    (∀ t ∈ c'.ts, OutInv w t) ∧ Progs c' = Progs c := by
+  induction hr with
+  | refl => exact ⟨ho, rfl⟩
+  | tail hr' hs ih =>
+    have hi' := inv_reach w L hL _ _ hi hr'
+    obtain ⟨h1, h2⟩ := out_step w L hL _ _ hi' ih.1 hs
+    exact ⟨h1, h2.trans ih.2⟩
+
+theorem out_start (w : World) (L : Loc) (progs : List (List Job)) :
+    (∀ t ∈ (Config.start L progs).ts, OutInv w t) ∧ Progs (Config.start L progs) = progs := by
+  refine ⟨?_, ?_⟩
+  · intro t ht
+    simp only [Config.start, List.mem_map] at ht
+    obtain ⟨p, _, rfl⟩ := ht
+    simp [OutInv, Link, Thread.init, pending, owesCur]
+  · simp [Progs, Config.start, Thread.init, Function.comp_def]
+
+/-! ### the schedule-independent outcome is the sequential one -/
+
+/-- the flat evaluation tree of a job -/
+def Job.toEv (j : Job) : Ev := .call (.ok j.mgr) [] (if j.raises then some 0 else none)
+
+/-- `Job.expected` is what the sequential model (`evalEv`) returns for the job, started with
+the lock free in an installed locale -/
+theorem evalEv_flat_expected (w : World) (j : Job) (σ : State) (hl : σ.lock = false)
+    (ha : w.avail σ.lc = true) : ∃ σ', evalEv w j.toEv σ = .ok (j.expected w) σ' := by
+  unfold Job.toEv Job.expected
+  cases hm : j.mgr.lc with
+  | none =>
+    cases hr : j.raises <;>
+      simp [evalEv, evalEvs, enter_noLocale w j.mgr σ hm, finish_none, Job.bodyOut, hr]
+  | some req =>
+    rcases enter_free w j.mgr σ req hm hl with ⟨σ1, he, _, hav, htg, _, _⟩ | ⟨σ1, he, _, hna, hfb⟩
+    · have hcond : (w.avail (w.norm req) || (j.mgr.fallback && w.avail enUS)) = true := by
+        rcases htg with h | ⟨h1, _, h3⟩
+        · rw [h] at hav; simp [hav]
+        · rw [h3] at hav; simp [h1, hav]
+      cases hr : j.raises with
+      | false =>
+        obtain ⟨σ', hf, _⟩ := finish_some w .ok σ1 σ.lc ha
+        exact ⟨σ', by simp [evalEv, evalEvs, he, hf, hcond, Job.bodyOut, hr]⟩
+      | true =>
+        obtain ⟨σ', hf, _⟩ := finish_some w (.err (.body 0)) σ1 σ.lc ha
+        exact ⟨σ', by simp [evalEv, evalEvs, he, hf, hcond, Job.bodyOut, hr]⟩
+    · have hcond : (w.avail (w.norm req) || (j.mgr.fallback && w.avail enUS)) = false := by
+        cases hf : j.mgr.fallback with
+        | false => simp [hna]
+        | true => simp [hna, hfb hf]
+      exact ⟨σ1, by simp [evalEv, he, hcond]⟩
 
 end EPV.Globals.Thr
